@@ -50,6 +50,26 @@ CHECKS['C03'] = dict(
     note='Three-valued reference (must-reject / must-accept / don\'t-care) deliberately weaker than or equal to the '
          'statement; glob()/WcMatch halves on real trees are explored by the FSX checks (C05, C14).')
 
+CHECKS['C07'] = dict(
+    level='model_checking', engine='AUT', design='6 C07',
+    technique='explicit-state product exploration: language equality between the executed regexes of a constructed '
+              'list presentation and the union/difference assembled from its single pieces',
+    text='All ordered lists of up to 2 (quick) / 3 (thorough) inclusions and 1 / 2 exclusions from dot-, slash-, '
+         'bracket- and group-sensitive pools, in ten presentations (exclude=, inline !/-, orders, duplicates, SPLIT '
+         'joins, NEGATEALL, brace templates x SPLIT x NEGATE), fnmatch and glob mode; equality decided on all names; '
+         'translate() list lengths compared with the number of distinct pieces.',
+    note='Single-piece semantics come from the library (decided by C01/C02); decomposition is known by construction; '
+         'empty brace expansions are dropped as Bash does.')
+CHECKS['C08'] = dict(
+    level='model_checking', engine='AUT', design='6 C08',
+    technique='explicit-state product exploration: automaton of translate() regexes vs automaton of the regexes '
+              'compile() executes; capture groups counted against the AST and checked on all names up to length 3',
+    text='Every generated fnmatch/glob pattern (C01/C02 menus) x flag sets and every small list with exclude= / inline '
+         'negation / SPLIT / BRACE: all translate() regexes compile and denote exactly the matcher\'s language (all '
+         'names); number and order of capture groups equal the extended groups of the AST; captured text of top-level '
+         'non-negated groups is the text the group consumed.',
+    note='Capture-content sub-oracle is the library\'s own fnmatch on prefix/group/suffix patterns (fnmatch mode).')
+
 PENDING = {}
 
 
